@@ -77,6 +77,35 @@ inductive Family where
   | none
   deriving DecidableEq, Repr
 
+/-- `types.BasicKind` of the underlying type of a trait column, as far as `extractUnderlying`
+(`traits.go`) distinguishes kinds -/
+inductive BasicKind where
+  | untypedInt
+  | int (bits : Nat)
+  | uint (bits : Nat)
+  | untypedRune
+  | untypedString
+  | string
+  | bool
+  | other
+  deriving DecidableEq, Repr
+
+/-- `TraitDesc.extractUnderlying`. An untyped rune constant has default type `rune` = `int32` and
+is in the int64 family (current tree); the pinned switch did not list `types.UntypedRune`
+(`legacyRune`). Untyped strings are deliberately not in the switch (they need no cast), bool has
+no family; float kinds are not modelled (`other`). -/
+def extractUnderlyingQ (legacyRune : Bool) : BasicKind → Family
+  | .untypedInt => .sint 64
+  | .int b => .sint b
+  | .uint b => .uint b
+  | .untypedRune => if legacyRune then .none else .sint 32
+  | .untypedString => .ustr
+  | .string => .nstr
+  | .bool => .none
+  | .other => .none
+
+def extractUnderlying : BasicKind → Family := extractUnderlyingQ false
+
 /-- a trait column as declared on the line of the lowest value: trait name (leading `_`
 trimmed), dynamic type of its constants, family -/
 structure TraitCol where
